@@ -860,8 +860,10 @@ def dump_one(f: TextIO, data: IOData):
 
     f.write("[GTO]\n")
     last_icenter = -1
-    # The shells must be sorted by center.
-    for shell in sorted(obasis.shells, key=(lambda s: s.icenter)):
+    # The shells must be sorted by center. The basis functions (rows of the
+    # orbital coefficients) must be reordered accordingly.
+    obasis, basis_perm = _sort_shells_by_center(obasis)
+    for shell in obasis.shells:
         if shell.icenter != last_icenter:
             if last_icenter != -1:
                 f.write("\n")
@@ -877,6 +879,7 @@ def dump_one(f: TextIO, data: IOData):
 
     # Get the permutation to convert the orbital coefficients to Molden conventions.
     permutation, signs = convert_conventions(obasis, CONVENTIONS)
+    permutation = basis_perm[permutation]
 
     # Print the mean-field orbitals
     if data.mo.kind == "unrestricted":
@@ -918,6 +921,30 @@ def dump_one(f: TextIO, data: IOData):
         )
     else:
         raise RuntimeError("Generalized orbitals are not support. Call prepare_dump first.")
+
+
+def _sort_shells_by_center(obasis: MolecularBasis) -> tuple[MolecularBasis, NDArray[int]]:
+    """Sort the shells by center.
+
+    Parameters
+    ----------
+    obasis
+        The orbital basis.
+
+    Returns
+    -------
+    sorted_obasis
+        The same basis with shells sorted by center (stable).
+    basis_perm
+        The corresponding permutation of the basis functions:
+        function ``i`` of the sorted basis is function ``basis_perm[i]`` of the original one.
+    """
+    offsets = np.cumsum([0] + [shell.nbasis for shell in obasis.shells])
+    order = sorted(range(len(obasis.shells)), key=(lambda i: obasis.shells[i].icenter))
+    basis_perm = np.array(
+        [ibasis for i in order for ibasis in range(offsets[i], offsets[i + 1])], dtype=int
+    )
+    return attrs.evolve(obasis, shells=[obasis.shells[i] for i in order]), basis_perm
 
 
 def _dump_helper_orb(f, spin, occs, coeffs, energies, irreps):
